@@ -101,6 +101,30 @@ def handleLimit (args : List String) (obs : String) : String :=
     | none => "bad-case\tFAIL:bad-case"
   | _ => "bad-case\tFAIL:bad-case"
 
+
+/-- c12e `<n> <rounds>`: accept failures by descriptor exhaustion. -/
+def handleEmfile (args : List String) (obs : String) : String :=
+  match args.mapM String.toNat? with
+  | some [n, rounds] =>
+    let evs := (List.replicate rounds [Ev.grant, .acceptErr, .wake, .grant, .acceptOk, .connEnd]).flatten
+    let s1 := run false (Srv.new n) evs
+    let s2 := s1.bind fun s => run false s (fill n)
+    let full := (s2.map (·.serving)) == some n
+    let s3 := s2.bind fun s => run false s [.revoke, .seeRevoked]
+    let b := fun (x : Bool) => if x then "1" else "0"
+    let model := s!"starved={rounds} served={if s1.isSome then rounds else 0} emfile_logged=1 full={b full} fresh={if full then n else 0} max={(s2.map (·.serving)).getD 0} stopped={b ((s3.map (·.acc)) == some Acc.stopped)}"
+    let verdict := Id.run do
+      if obs.startsWith "no-prlimit" ∨ obs.startsWith "noconn" then return "free"
+      if (field obs "starved").toNat! < rounds ∨ field obs "emfile_logged" != "1" then return "free"   -- the injection did not take
+      let mut fails : List String := []
+      if (field obs "served").toNat! != rounds then fails := fails ++ ["connection-lost-after-accept-failure"]
+      if field obs "full" != "1" ∨ (field obs "fresh").toNat! != n then fails := fails ++ ["slot-lost"]
+      if (field obs "max").toNat! > n then fails := fails ++ ["over-limit"]
+      if field obs "stopped" != "1" then fails := fails ++ ["not-stopped"]
+      if fails.isEmpty then "ok" else "FAIL:" ++ ",".intercalate fails ++ ":"
+    model ++ "\t" ++ verdict
+  | _ => "bad-case\tFAIL:bad-case"
+
 /-- Lets the accept loop run alone (events that need nothing from outside) until it stops; returns the number of steps. -/
 def loopAlone : Nat → Srv → Nat → Option Nat
   | 0, _, _ => none
